@@ -91,8 +91,8 @@ CHECKS = {
    technique="explicit-state BFS over real persisted account states with a reference-model oracle at every transition",
    design_ref="DESIGN.md §5 C01"),
  "C02": dict(engine="hist", level="model_checking",
-   text="On every transition of the C01 search (local edits on both backends): the folder reduced from the persisted event log, the folder the account serves and the vault decoded from the mirror (vault file / folder rows) are decrypted and must be equal (name, flags, description, ids, meta, values) and equal to the model; and for every commit of every folder log, FolderReducer::new_until_commit must equal an independent reference reducer over the same record prefix.",
-   note="Local histories by the hist engine plus merge worlds by the sync engine (every device after every sync step); force merges after hard conflicts not yet driven.",
+   text="On every transition of the C01 search (local edits on both backends): the folder reduced from the persisted event log, the folder the account serves and the vault decoded from the mirror (vault file / folder rows) are decrypted and must be equal (name, flags, description, ids, meta, values) and equal to the model; and for every commit of every folder log, FolderReducer::new_until_commit must equal an independent reference reducer over the same record prefix. The same oracles run on every device after every sync step of the sync engine's conflict worlds (incl. compaction on one device; quick: sqlite client + server for those) and after forced overwrites: device 1 performs every operation (quick) / every sequence of two operations (thorough) of a 19-operation alphabet, device 2 (copy of the same account, with or without a local divergence) takes all of device 1's folder logs with force_merge_folder, and device 2's view must equal device 1's model, replay == served == mirror, live and after a fresh sign-in, on both backends.",
+   note="Local histories by the hist engine, merge worlds by the sync engine (every device after every sync step), forced overwrites through the ForceMerge API (the hard-conflict resolver of the sync client calls the same function; no sync world reaches it by itself).",
    technique="explicit-state BFS over real account states; replay==served==mirror invariant and per-commit reference-reducer comparison at every transition",
    design_ref="DESIGN.md §5 C02"),
  "C12": dict(engine="hist", level="model_checking",
@@ -111,7 +111,7 @@ CHECKS = {
    technique="exhaustive enumeration of bounded file-secret operation histories (tree search over real account states, one- and two-device worlds with a real server) and of single-point mutations of upload bodies, against a reference model of the blob set",
    design_ref="DESIGN.md §5 C17"),
  "C20": dict(engine="hist", level="model_checking",
-   text="At every transition of the C01 search the account's incrementally maintained search index is compared with a fresh index rebuilt with add_folder over the same unlocked folders: documents (ids, folder, full meta), one document per live secret, counters (per folder, kind, tag, favourites; zero entries normalised) and query results for every label in play.",
+   text="At every transition of the C01 search the account's incrementally maintained search index is compared with a fresh index rebuilt with add_folder over the same unlocked folders: documents (ids, folder, full meta), one document per live secret, counters (per folder, kind, tag, favourites; zero entries normalised) and query results for every label in play. The same comparison runs on every device after every sync step of the sync engine's conflict worlds and on device 2 after every forced overwrite case (see C02).",
    note="Local histories by the hist engine plus merge worlds by the sync engine (every device after every sync step).",
    technique="explicit-state BFS over real account states; incremental==rebuilt index invariant at every transition",
    design_ref="DESIGN.md §5 C20"),
